@@ -397,6 +397,14 @@ def o_C07(tr: Trace, c: Cfg, h: str = "S") -> Fails:
     n = len(F)
     maxpkt = int(tr.remote[h]["maxpkt"])
     seg = c.seg_len
+    if seg <= 0:
+        # max_packet_len leaves no room for file data: the derived segment length is zero (endless
+        # empty File Data PDUs) or negative (ValueError at transaction start)
+        bad = [e for e in evs if (e.op == "get" and e.pdu and pdu_kind(e.pdu) == "fd" and pdu_fields(e.pdu)["data"] == "-")
+               or (e.op == "sm" and e.exc == "ValueError")]
+        if bad and n > 0:
+            f.add("C07:segment-length-not-positive", {"seg_len": seg, "maxpkt": maxpkt, "out": bad[0].out[:160]}, bad[0].idx)
+        return f
     i = 0
     while i < len(evs):
         e = evs[i]
